@@ -69,6 +69,9 @@ def bfs(module_name, configs, max_depth, workers=None, time_cap=None, batch=32):
     st = BFSStats()
     t0 = time.time()
     ctx = mp.get_context("fork")
+    from mc import runner as _runner
+
+    _runner.scratch_dir()  # before the fork: one scratch directory per check, removed at exit
     with ctx.Pool(workers, initializer=_init, initargs=(module_name, configs)) as pool:
         seen = [set() for _ in configs]
         frontier = [(i, []) for i in range(len(configs))]
